@@ -1,4 +1,72 @@
+/-
+C12 — property theorems (statements fixed by the architect; do not weaken).
+Helper lemmas: PeroVerif/Lemmas/SmartSort.lean.
+-/
 import PeroVerif.Model.SmartSort
+import PeroVerif.Lemmas.SmartSort
+
 namespace C12
-theorem placeholder : (1:Nat) = 1 := rfl
+open SS
+
+/-- The smart sorter always terminates (the fuel `2n+2` is never exhausted) and only permutes the
+regions — for every set of boxes (overlapping, nested, identical, degenerate), every intersection
+parameter. Boxes are moved as whole records, so ids and geometry are untouched. -/
+theorem smart_terminates_perm (num den : Nat) (bs : List Box) :
+    ∃ out, smartSort num den bs = some out ∧ out.Perm bs := by
+  unfold smartSort
+  by_cases h : bs.length < 2
+  · exact ⟨bs, by simp [h], List.Perm.refl _⟩
+  · simp only [h, if_false]
+    exact divide_total num den _ bs false false (by simp; omega)
+
+/-- More fuel never changes the result: the recursion depth is bounded by the number of regions. -/
+theorem divide_fuel_irrelevant (num den : Nat) (bs : List Box) (vertical hasParent : Bool) (f₁ f₂ : Nat)
+    (h₁ : bs.length + 2 ≤ f₁) (h₂ : bs.length + 2 ≤ f₂) :
+    divide num den f₁ bs vertical hasParent = divide num den f₂ bs vertical hasParent :=
+  divide_fuel_gen num den f₁ f₂ bs vertical hasParent
+    (by cases hasParent <;> simp <;> omega) (by cases hasParent <;> simp <;> omega)
+
+/-- Pages with fewer than two regions are returned unchanged. -/
+theorem smart_small (num den : Nat) (bs : List Box) (h : bs.length < 2) : smartSort num den bs = some bs := by
+  simp [smartSort, h]
+
+/-- The coupling loop partitions its input: nothing lost, nothing duplicated, no empty group. -/
+theorem couple_partition (num den : Nat) (vertical : Bool) (bs : List Box) :
+    ((couple num den vertical bs.length bs).flatMap (·.members)).Perm bs ∧
+    ∀ g ∈ couple num den vertical bs.length bs, g.members ≠ [] :=
+  couple_partition_gen num den vertical bs.length bs (Nat.le_refl _)
+
+/-- The fallback ordering is a permutation. -/
+theorem decoupleOrder_perm (bs : List Box) : (decoupleOrder bs).Perm bs :=
+  SS.decoupleOrder_perm bs
+
+/-- Naive sorter: for every labelling with labels `0..k-1` (what DBSCAN returns) the order is a
+permutation of the region indices; no region is lost or duplicated. -/
+theorem naive_perm (keys : List Int) (labels : List Nat)
+    (hlab : ∀ c ∈ labels, c < (uniq labels).length) :
+    ∃ o, naiveOrder keys labels = some o ∧ o.Perm (List.range labels.length) :=
+  SS.naive_perm keys labels hlab
+
+/-! Non-vacuity: two columns × two rows given in scrambled order; four mutually overlapping boxes
+(the recursive fallback). -/
+def exGrid : List Box := [⟨0, 500, 400, 850, 650⟩, ⟨1, 100, 100, 450, 350⟩, ⟨2, 500, 100, 850, 350⟩, ⟨3, 100, 400, 450, 650⟩]
+def exOverlap : List Box := [⟨0, 0, 0, 500, 500⟩, ⟨1, 100, 100, 600, 600⟩, ⟨2, 50, 200, 550, 700⟩, ⟨3, 200, 50, 700, 550⟩]
+
+/-- `exGrid` is put into reading order: top row left to right, then bottom row. -/
+example : smartSort 1 10 exGrid = some [⟨1, 100, 100, 450, 350⟩, ⟨2, 500, 100, 850, 350⟩,
+    ⟨3, 100, 400, 450, 650⟩, ⟨0, 500, 400, 850, 650⟩] := by
+  simp [smartSort, exGrid, divide, couple, grow, pickFirst, intersect, ratioGt, BBox.init, BBox.addBox,
+    BBox.update, Box.bbox, sortBy, List.mergeSort, List.MergeSort.Internal.splitInTwo, decoupleOrder]
+
+/-- `exOverlap` goes through the "group did not split" fallback (`decoupleOrder`). -/
+example : smartSort 1 10 exOverlap = some [⟨0, 0, 0, 500, 500⟩, ⟨2, 50, 200, 550, 700⟩,
+    ⟨1, 100, 100, 600, 600⟩, ⟨3, 200, 50, 700, 550⟩] := by
+  simp [smartSort, exOverlap, divide, couple, grow, pickFirst, intersect, ratioGt, BBox.init, BBox.addBox,
+    BBox.update, Box.bbox, sortBy, List.mergeSort, List.MergeSort.Internal.splitInTwo, decoupleOrder, gaps]
+
+/-- naive sorter: cluster 0 = {1, 3} (first key 1) before cluster 1 = {0, 2} (first key 5). -/
+example : naiveOrder [5, 1, 3, 2] [1, 0, 1, 0] = some [1, 3, 2, 0] := by
+  simp [naiveOrder, uniq, firstIdx, sortBy, List.mergeSort, List.MergeSort.Internal.splitInTwo,
+    List.eraseDups_cons, List.range, List.range.loop, List.findIdx_cons]
+
 end C12
